@@ -5,7 +5,11 @@ from diff import Case
 from gen import *
 
 THEOREMS = ["C03_tcp_csum_verifies", "C03_tcp_ops_checksummed", "C03_tcp_good_verifies", "C03_udp_csum_verifies",
-            "C03_udp_len_exact", "C03_icmp_layout", "C03_icmp_verifies", "C03_icmp_seq_counts"]
+            "C03_udp_len_exact", "C03_icmp_layout", "C03_icmp_verifies", "C03_icmp_seq_counts",
+            # library-method level (Props/C03b.v)
+            "C03_tcp_methods_checksummed", "C03_tcp_history", "C03_tcp_history_verifies", "C03_tcp_flow_created_wf", "C03_icmp_methods", "C03_icmp_history", "C03_icmp_flow_created_wf", "C03_udp_flow_methods", "C03_udp_unicast_csum_absent", "C03_udp_broadcast_csum_absent", "C03_vxlan_csum_absent", "C03_dns_host_checksummed", "C03_udp_flow_created_wf", "C03_family_methods_foreign", "C03_family_functions_foreign"]
+PROPS = ["C03", "C03b"]
+VO = ["theories/Props/C03.vo", "theories/Props/C03b.vo"]
 RULE = ("random programs over TCP flow operations (with and without seq/ack overrides), UDP flow/unicast/broadcast/"
         "dns::host datagrams with csum on/off, ICMP echo histories, raw and framed, inside tunnels; payloads of every "
         "parity including ones solved for so that the UDP sum folds to 0x0000 (must be sent as 0xffff) and sums that "
